@@ -55,6 +55,10 @@ Definition lpf_needs_frag (total_size ieee_len : Z) : bool := total_size + ieee_
 
 (* one 6LoWPAN frame without its MAC header: fragment header (if any) and payload octets *)
 Record lpf_frame := mkFrame { fr_hdr : option sixfrag_repr; fr_payload : list Z }.
+(* the octets of a fragment header (Repr::emit into a zeroed buffer of buffer_len octets) *)
+Definition sixfrag_bytes_of (h : sixfrag_repr) : outcome (list Z) :=
+  sixfrag_emit h (repeat 0 (Z.to_nat (sixfrag_buffer_len h))).
+
 Definition lpf_frame_len (ieee_len : Z) (f : lpf_frame) : Z :=
   ieee_len + match fr_hdr f with Some h => sixfrag_buffer_len h | None => 0 end + blen (fr_payload f).
 
